@@ -758,6 +758,9 @@ class Interp:
             if role == NONE:
                 yield s1, False, None
                 continue
+            if role[0] == "const" and role[1] in ("True", "False", "0", "1", "''", "()", "[]"):
+                yield s1, role[1] in ("True", "1"), None
+                continue
             for v in (True, False):
                 s2 = s1.copy()
                 s2.emit(Event("GUARD", func, e, frame.id, name="opaque", a=role, b=None, outcome=v, text=norm(e)))
